@@ -1,17 +1,40 @@
 (* C01/C04 model runner: one recorded copy per line on stdin.
    <id> <N> <K> <mode g|t|r> <root> <cached0 ids|-> <nodes> <d0> <trace> [rp=...]
      K     : CopyGraphOptions.Concurrency as passed (<= 0: the default regenerated from copy.go)
-     root  : root after resolveRoot/MapRoot; -1 = the prologue fails (trace must be just RT.0)
+     root  : root after resolveRoot/MapRoot; -1 = the prologue fails (trace must be just RT.0);
+             r1+r2+...: the roots of an ExtendedCopyGraph call (mode g)
      nodes : ';'-separated, per node  <flags>/<dkey>/<succ>   flags: f foreign, m manifest, - none;
              succ: ','-separated node ids or '-'
      d0    : ','-separated node ids initially in the destination, or '-'
      trace : ','-separated event tokens or '-':
              XB.n  XE.n.b  SB.n SE.n SC.n  PB.n.ref PE.n.ref.(k|x)  CB.kind.n  CF.kind.n  TB.n TE.n
              MB.n  ME.n.(m|s|c)  RT.b
-     mode  : g|t|r, followed by m when the destination is a Mounter and MountFrom is set
+     mode  : g|t|r, followed by m when the destination is a Mounter and MountFrom is set, optionally
+             followed by /<5 bits>: which of PreCopy PostCopy OnCopySkipped OnMounted MountFrom are set
+             (default all); the invocations of nil callbacks are inserted by Model/CopyOpt.step_opt
              kind: pre post skip mounted mountfrom
    output: <id> ACC ret=<1|0|-> tag=<n|-> dst=<ids> cr=<ids|-> ms=<max src reads in flight> md=<max dst ops in flight>  (both '-' unless ret=1)
         or <id> REJ <index> <token>  (first event the transition system refuses) *)
+(* pl=<arch>.<os>.<osver>.<variant>.<feat+feat|->@<node>.<arch|->.<os>,...  : WithTargetPlatform on an index *)
+let platform_field fields =
+  List.fold_left (fun acc f ->
+    if String.length f > 3 && String.sub f 0 3 = "pl=" then Some (String.sub f 3 (String.length f - 3)) else acc) None fields
+let select_of spec =
+  match String.split_on_char '@' spec with
+  | [w; es] ->
+    let ni s = nat_of_int (int_of_string s) in
+    let want = (match String.split_on_char '.' w with
+      | [a; o; v; va; fs] ->
+        { p_arch = ni a; p_os = ni o; p_osver = ni v; p_variant = ni va;
+          p_feats = (if fs = "-" then [] else List.map ni (String.split_on_char '+' fs)) }
+      | _ -> failwith "want") in
+    let entries = if es = "" then [] else List.map (fun e ->
+      match String.split_on_char '.' e with
+      | [n; "-"; _] -> (ni n, None)
+      | [n; a; o] -> (ni n, Some { p_arch = ni a; p_os = ni o; p_osver = O; p_variant = O; p_feats = [] })
+      | _ -> failwith "entry") (String.split_on_char ',' es) in
+    (match select_manifest entries want with Some n -> string_of_int (int_of_nat n) | None -> "-")
+  | _ -> failwith "pl"
 let z_of_int i = if i = 0 then Z0 else if i > 0 then Zpos (pos_of_int i) else Zneg (pos_of_int (-i))
 let ints s = if s = "-" || s = "" then [] else List.map int_of_string (String.split_on_char ',' s)
 let show_ints l = if l = [] then "-" else String.concat "," (List.map string_of_int l)
@@ -47,11 +70,12 @@ let event_of tok =
 let () =
   iter_lines (fun l ->
     match split_ws l with
-    | id :: sn :: sk :: smode :: sroot :: sc0 :: snodes :: sd0 :: strace :: _ ->
+    | id :: sn :: sk :: smode :: sroot :: sc0 :: snodes :: sd0 :: strace :: rest ->
       (try
-        if int_of_string sroot < 0 then begin
+        let sel = match platform_field rest with Some spec -> " sel=" ^ select_of spec | None -> "" in
+        if sroot.[0] = '-' then begin
           (match prologue None None with
-           | None -> if strace = "RT.0" then Printf.printf "%s PROLOGUE-ERR\n" id
+           | None -> if strace = "RT.0" then Printf.printf "%s PROLOGUE-ERR%s\n" id sel
                      else Printf.printf "%s REJ 0 %s\n" id strace
            | Some _ -> failwith "prologue")
         end else
@@ -74,11 +98,19 @@ let () =
                   g_foreign = (fun x -> get foreign false x);
                   g_ismf = (fun x -> get ismf false x);
                   g_dkey = (fun x -> let i = int_of_nat x in nat_of_int (if i < n then dkey.(i) else 1000000 + i)) } in
+        let smode, cbits = match String.split_on_char '/' smode with
+          | [m; b] when String.length b = 5 -> m, b
+          | [m] -> m, "11111"
+          | _ -> failwith "mode" in
+        let cs = function
+          | CPre -> cbits.[0] = '1' | CPost -> cbits.[1] = '1' | CSkip -> cbits.[2] = '1'
+          | CMounted -> cbits.[3] = '1' | CMountFrom -> cbits.[4] = '1' in
         let mount = String.length smode = 2 && smode.[1] = 'm' in
         let mode = match String.sub smode 0 1 with "g" -> MGraph | "t" -> MTagger | "r" -> MRefPush | _ -> failwith "mode" in
-        let root = int_of_string sroot in
+        let root, xroots = match List.map int_of_string (String.split_on_char '+' sroot) with
+          | r :: xs -> r, xs | [] -> failwith "root" in
         let c = { c_K = eff_K_gen (z_of_int (int_of_string sk)); c_mode = mode; c_root = nat_of_int root; c_mount = mount; c_tagmounted = true;
-                  c_cached0 = List.map nat_of_int (ints sc0) } in
+                  c_cached0 = List.map nat_of_int (ints sc0); c_xroots = List.map nat_of_int xroots } in
         let d0 = List.map nat_of_int (ints sd0) in
         let toks = if strace = "-" then [] else String.split_on_char ',' strace in
         let tr = List.map event_of toks in
@@ -87,9 +119,9 @@ let () =
           match tr with
           | [] -> Ok st
           | e :: tr' ->
-            (match step g c st e with
+            (match step_opt cs g c st e with
              | None -> Error i
-             | Some st' ->
+             | Some (st', _) ->
                ms := max !ms (int_of_nat (inflight_src g st'));
                md := max !md (int_of_nat (inflight_dst g st'));
                go st' tr' (i + 1)) in
@@ -100,9 +132,10 @@ let () =
           let ret = match st.returned with Some true -> "1" | Some false -> "0" | None -> "-" in
           let tg = match st.tag with Some t -> string_of_int (int_of_nat t) | None -> "-" in
           let pres d = sort_uniq_ints (List.map int_of_nat (present_nodes g d)) in
-          let cr = if ret = "1" then show_ints (pres (copy_result g d0 (nat_of_int (n + 1)) (nat_of_int root))) else "-" in
+          let cr = if ret = "1" then show_ints (pres (List.concat (List.map (fun r ->
+                     copy_result g d0 (nat_of_int (n + 1)) (nat_of_int r)) (root :: xroots)))) else "-" in
           let gauges = if ret = "1" then Printf.sprintf "ms=%d md=%d" !ms !md else "ms=- md=-" in
-          Printf.printf "%s ACC ret=%s tag=%s dst=%s cr=%s %s\n" id ret tg (show_ints (pres st.dst)) cr gauges
+          Printf.printf "%s ACC ret=%s tag=%s dst=%s cr=%s %s%s\n" id ret tg (show_ints (pres st.dst)) cr gauges sel
       with Failure m -> Printf.printf "%s BAD %s\n" id m)
     | [] -> ()
     | _ -> Printf.printf "BADLINE %s\n" l)
